@@ -119,6 +119,14 @@ def oracle(case, out, raw):
         if case.get(flag):
             nodes = set(fn(n) for n in nodes)
             edges = set((fn(a), fn(b)) for a, b in edges if fn(a) != fn(b))
+    # the graph itself (before any layout): with a merge it is the quotient by the package function without self-loops
+    exp_rels = sorted(set("%s -> %s" % (a, b) for a, b in edges))
+    got_rels = sorted(set(out.get("allRels", [])))
+    if got_rels != exp_rels:
+        miss = [r for r in exp_rels if r not in got_rels][:4]
+        extra = [r for r in got_rels if r not in exp_rels][:4]
+        ds.append(("arch-graph-relations", "relations of the %s graph: missing %s, not expected %s" % (
+            "merged" if (case.get("mergeHeader") or case.get("mergePackage")) else "full", miss, extra)))
     filt = case["filters"]
     shown = set(n for n in nodes if any(f in n for f in filt))
     # a name that is a proper dotted prefix of another displayed name is drawn as a cluster only
